@@ -64,6 +64,8 @@ try:
                     "first_op": ((rp.get("ops") or [""])[-1])[:200], "broken": [b[:200] for b in (rp.get("broken") or rp.get("theorem_or_correspondence") or [])[:4]]})
 finally:
     subprocess.call("git -C /repo checkout -- . && git -C /repo clean -fdq lib", shell=True)
+    # the evidence files describe the unchanged tree only: a run against a seeded change must not leave its record behind
+    subprocess.call("git -C /verif checkout -- evidence", shell=True)
 dst = os.path.join("/verif/seeded", sid)
 os.makedirs(dst, exist_ok=True)
 for f in ([] if os.path.abspath(src) == os.path.abspath(dst) else os.listdir(src)):
